@@ -409,8 +409,19 @@ pub fn generate(family: &str, seed: u64, tier: &str) -> Vec<String> {
                             if !thorough && (level + pi) % 3 != 0 && level != 0 && level != 9 {
                                 continue;
                             }
-                            let framing = framings[(level + pi) % 3];
-                            let st = &steps_all[(level + pi + pk.len()) % steps_all.len()];
+                            // quick: one framing and one way of reading per (coding, size, payload kind, level), rotating;
+                            // thorough: every framing x every way of reading
+                            let variants: Vec<(usize, usize)> = if thorough {
+                                (0..3).flat_map(|f| (0..steps_all.len()).map(move |t| (f, t))).collect()
+                            } else {
+                                vec![((level + pi) % 3, (level + pi + pk.len()) % steps_all.len())]
+                            };
+                            for (fi, ti) in variants {
+                            if thorough && plen > 100_000 && (fi + ti + level) % 3 != 0 {
+                                continue; // the largest bodies: a third of the product
+                            }
+                            let framing = framings[fi];
+                            let st = &steps_all[ti];
                             if gu(st, "maxlen") > 0 && plen > gu(st, "maxlen") {
                                 continue;
                             }
@@ -435,6 +446,7 @@ pub fn generate(family: &str, seed: u64, tier: &str) -> Vec<String> {
                                 sc["maxread"] = json!(1460);
                             }
                             push(&mut out, sc);
+                            }
                         }
                     }
                 }
